@@ -56,7 +56,8 @@ class World:
     """the server: active groups (procs, in priority order), the configuration file (config: group -> process
     names), active groups whose configuration differs (changed), mood"""
 
-    def __init__(self, procs=(), config=None, changed=(), shutting=False, mainlog='supervisord started\n'):
+    def __init__(self, procs=(), config=None, changed=(), shutting=False, mainlog='supervisord started\n', uncreatable=()):
+        self.uncreatable = list(uncreatable)    # configured groups that cannot be created (addProcessGroup -> FAILED)
         self.procs = list(procs)
         self.config = {g: list(v) for g, v in (config or {}).items()}
         self.changed = list(changed)
@@ -67,11 +68,12 @@ class World:
     # ---- (de)serialisation for replay files
     def to_json(self):
         return {'procs': [p.to_json() for p in self.procs], 'config': self.config, 'changed': list(self.changed),
-                'shutting': self.shutting, 'mainlog': self.mainlog}
+                'shutting': self.shutting, 'mainlog': self.mainlog, 'uncreatable': list(self.uncreatable)}
 
     @classmethod
     def from_json(cls, d):
-        return cls([Proc(*p) for p in d['procs']], d['config'], d['changed'], d['shutting'], d['mainlog'])
+        return cls([Proc(*p) for p in d['procs']], d['config'], d['changed'], d['shutting'], d['mainlog'],
+                   d.get('uncreatable', ()))
 
     def copy(self):
         return copy.deepcopy(self)
@@ -79,7 +81,7 @@ class World:
     def snapshot(self):
         """what later requests could observe (pids only as zero / non-zero)"""
         return (sorted((p.group, p.name, p.state, p.pid != 0) for p in self.procs),
-                sorted((g, tuple(v)) for g, v in self.config.items()), sorted(self.changed))
+                sorted((g, tuple(v)) for g, v in self.config.items()), sorted(self.changed), sorted(self.uncreatable))
 
     # ---- state
     def groups(self):
@@ -178,6 +180,8 @@ class World:
             return F['BAD_NAME']
         if g in self.groups():
             return F['ALREADY_ADDED']
+        if g in self.uncreatable:
+            return F['FAILED']      # add_process_group raised ValueError / OSError (fcgi socket, childlogdir)
         PS = _states().ProcessStates
         for n in self.config[g]:
             self.procs.append(Proc(g, n, PS.STOPPED, 0))
@@ -374,7 +378,7 @@ def spec(action, arg, w):
             for it in e.items[1:]:
                 it.after_fault = True
             e.check_extra = True
-            e.lost_kind = 'world-names-lost-after-fault:' + action
+            e.lost_kind = 'world-names-lost-after-fault:' + ('add:SHUTDOWN_STATE' if action == 'add' else action)
         return e
     if action in ('start', 'stop', 'restart', 'signal', 'clear'):
         sig = None
@@ -451,16 +455,29 @@ def spec(action, arg, w):
         e.check_state = False
         return e
     if action == 'add':
+        refused_before = False
         for n in names:
             code = w.add_group(n)
             if code == SUCCESS:
                 e.items.append(Item('ok', n + ': ', what='add ' + n))
             elif code == F['ALREADY_ADDED']:
                 e.items.append(Item('tol', what='add %s: already active' % n))
+            elif code == F['FAILED']:
+                # F50 (open): do_add has no branch for FAILED and re-raises it: the names after this one are never
+                # asked about.  The server state then differs as a consequence: not reported twice.
+                it = Item('err', what='add %s refused: FAILED' % n)
+                it.after_fault = refused_before
+                e.items.append(it)
+                refused_before = True
+                e.lost_kind = 'names-lost-after-fault:add:FAILED'     # the same kind as the scripted monitor: one defect, one kind
+                e.check_state = False
+                e.fail()
+                continue
             else:
                 e.items.append(Item('err', contains=[n], unknown=True, what='unknown ' + n))
                 e.unknown.append(n)
                 e.fail()
+            e.items[-1].after_fault = refused_before
         return e
     if action == 'remove':
         for n in names:
@@ -661,6 +678,7 @@ def fixed_worlds():
                               Proc('api', 'worker_0', PS.STOPPED), Proc('api', 'worker_1', PS.RUNNING, 22),
                               Proc('worker_0', 'x', PS.RUNNING, 23)],
                              {'web': ['worker_0', 'worker_1'], 'api': ['worker_0', 'worker_1'], 'worker_0': ['x']})),
+        ('uncreatable', World(mix(), dict(cfg, sock=['sock'], new=['new'], zed=['zed']), uncreatable=['sock', 'zed'])),
         ('shutting', World(mix(), cfg, shutting=True)),
     ]
     return res
@@ -759,8 +777,9 @@ def random_world(rng):
             elif x < 0.4: changed.append(g)
         for g in rng.sample(['new', 'zeta', 'foo2'], rng.randrange(0, 3)):
             config[g] = [g]
+    unc = [g for g in config if rng.random() < 0.12]
     return World(procs, config, changed, shutting=rng.random() < 0.04,
-                 mainlog=rng.choice(['main\n', 'main\n', None]))
+                 mainlog=rng.choice(['main\n', 'main\n', None]), uncreatable=unc)
 
 
 def random_line(rng, w):
